@@ -238,7 +238,15 @@ func runC09(c *fw.Case) {
 					return
 				}
 				if older != nil && copyNo%3 == 0 {
-					super := sstables.NewSuperSSTableReader([]sstables.SSTableReaderI{older, rd}, skiplist.BytesComparator{})
+					// (a reader keeps every full scan's file handle and buffer until it is closed: the older table gets a reader
+					// of its own per stack, with a small buffer, instead of one that lives as long as the case)
+					olderRd, oerr := sstables.NewSSTableReader(sstables.ReadBasePath(odir), sstables.ReadWithKeyComparator(skiplist.BytesComparator{}), sstables.ReadBufferSizeBytes(4096))
+					if oerr != nil {
+						c.Violate("harness/open-older-table", "%v", oerr)
+						return
+					}
+					defer olderRd.Close()
+					super := sstables.NewSuperSSTableReader([]sstables.SSTableReaderI{olderRd, rd}, skiplist.BytesComparator{})
 					for i, e := range kvs {
 						got, err := super.Get(e.k)
 						if err != nil {
